@@ -31,7 +31,8 @@ def ref_snake(name: str) -> str:
 class ExprGen:
     """Builds builder expressions + the shape and arguments they are supposed to denote."""
 
-    def __init__(self, pkg, schema, rng: random.Random, dirty: Set[str]):
+    def __init__(self, pkg, schema, rng: random.Random, dirty: Set[str], ser_scalars: Optional[Set[str]] = None):
+        self.ser_scalars = ser_scalars or set()
         self.pkg = pkg
         self.schema = schema
         self.rng = rng
@@ -74,6 +75,22 @@ class ExprGen:
             return {k: self.arg_value(f.type) for k, f in t.fields.items() if is_required_input_field(f)}
         n = self.tok()
         return {"Int": 100 + n, "Float": n + 0.5, "String": "arg#%d" % n, "ID": "id#%d" % n, "Boolean": n % 2 == 0}.get(t.name, "cs#%d" % n)
+
+    def as_serialized(self, t, v):
+        """The value with every leaf of a scalar configured with `serialize` replaced by what that function returns for it."""
+        from graphql import GraphQLInputObjectType, GraphQLList, GraphQLNonNull, GraphQLScalarType
+        if v is None or not self.ser_scalars:
+            return v
+        if isinstance(t, GraphQLNonNull):
+            return self.as_serialized(t.of_type, v)
+        if isinstance(t, GraphQLList):
+            return [self.as_serialized(t.of_type, x) for x in v]
+        if isinstance(t, GraphQLInputObjectType):
+            return {k: self.as_serialized(t.fields[k].type, x) for k, x in v.items()}
+        if isinstance(t, GraphQLScalarType) and t.name in self.ser_scalars:
+            self.feats.add("arg.custom_scalar_serialized")
+            return "S:%s" % (v,)
+        return v
 
     def python_value(self, t, v):
         from ..values import build_python
@@ -143,7 +160,9 @@ class ExprGen:
         params = list(sig.parameters)
         probe = meth(**{p: "probe#%d" % i for i, p in enumerate(params)})
         inv = {"probe#%d" % i: p for i, p in enumerate(params)}
-        pmap = {g: inv[d["value"]] for g, d in probe._variables.items() if isinstance(d.get("value"), str) and d["value"] in inv}
+        def _raw(v_):  # a configured serialize function has already been applied to the probe marker
+            return v_[2:] if isinstance(v_, str) and v_.startswith("S:") else v_
+        pmap = {g: inv[_raw(d["value"])] for g, d in probe._variables.items() if isinstance(d.get("value"), str) and _raw(d["value"]) in inv}
         kwargs = {}
         for aname, a in fdef.args.items():
             required = is_required_argument(a) or str(a.type).endswith("!")  # the builder makes every non-null argument a required parameter
@@ -173,7 +192,7 @@ class ExprGen:
                 self.skip("arg_unbuildable")
                 return None
             from graphql.utilities import coerce_input_value
-            shape["args"][aname] = json.loads(json.dumps(coerce_input_value(v, a.type), default=str))  # what a conformant server makes of it (input defaults applied)
+            shape["args"][aname] = json.loads(json.dumps(coerce_input_value(self.as_serialized(a.type, v), a.type), default=str))  # what a conformant server makes of it (input defaults applied)
             if is_list:
                 self.feats.add("builder.list_arg")
             if level >= 2:
@@ -332,11 +351,22 @@ def worker(case: Dict[str, Any]) -> CaseResult:
     feats = set(cw.case_features(case, sfeats))
     cfg_full = {k: v for k, v in case["cfg"].items() if not k.startswith("_")}
     cfg_full["enable_custom_operations"] = True
+    ser_scalars: Set[str] = set()
+    extra_files = None
+    if case.get("scalars"):
+        from graphql import GraphQLScalarType
+        ser_scalars = {n for n, t in schema_ref.type_map.items() if isinstance(t, GraphQLScalarType) and n not in ("String", "Int", "Float", "Boolean", "ID")}
+        if ser_scalars:
+            # every custom scalar is a str with a serialize function: arguments of that type must arrive as serialize(value), and an argument left as None must still be omitted
+            extra_files = {"vf_csm.py": "def ser(value):\n    return 'S:%s' % (value,)\n"}
+            cfg_full["scalars"] = {n: {"type": "str", "serialize": ".vf_csm.ser"} for n in sorted(ser_scalars)}
+            cfg_full["files_to_include"] = ["vf_csm.py"]
+            feats.add("scalar.config.serialize_str")
     replay_case = dict(case)
     replay_case["_sdl"] = sdl
     rng = random.Random(case["seed"] * 43 + case["idx"])
     with core.Scratch() as root:
-        cfg = write_case(root, sdl, None, cfg_full)
+        cfg = write_case(root, sdl, None, cfg_full, extra_files=extra_files)
         with warnings.catch_warnings():
             warnings.simplefilter("ignore")
             gen = run_cli(root, "client", cfg)
@@ -355,7 +385,7 @@ def worker(case: Dict[str, Any]) -> CaseResult:
         client, is_async = make_client(pkg, cfg, server, make_tracer() if (case.get("cfg") or {}).get("_tracer") else None)  # the traced code path is a different one
 
         def build_and_send(seed: int, kind: str, opname: str):
-            eg = ExprGen(pkg, schema_ref, random.Random(seed), dirty)
+            eg = ExprGen(pkg, schema_ref, random.Random(seed), dirty, ser_scalars)
             fields = eg.operation(kind, 1 + seed % 3)
             if not fields:
                 return None, eg
@@ -386,7 +416,7 @@ def worker(case: Dict[str, Any]) -> CaseResult:
             for ei in range(n_expr):
                 seed = case["seed"] * 7919 + case["idx"] * 101 + ei
                 kind = kinds[ei % len(kinds)]
-                eg = ExprGen(pkg, schema_ref, random.Random(seed), dirty)
+                eg = ExprGen(pkg, schema_ref, random.Random(seed), dirty, ser_scalars)
                 fields = eg.operation(kind, 1 + ei % 3)
                 for why, n in eg.skipped.items():
                     count("skipped." + why, n)
@@ -494,7 +524,7 @@ def worker(case: Dict[str, Any]) -> CaseResult:
                 # ---- the same field OBJECTS used again in a later operation, at other top-level positions, give the document a fresh tree gives
                 if "builder.shared_field_mutation" not in dirty:
                     def fresh(seed_):
-                        eg2 = ExprGen(pkg, schema_ref, random.Random(seed_), dirty)
+                        eg2 = ExprGen(pkg, schema_ref, random.Random(seed_), dirty, ser_scalars)
                         return eg2.operation(kind, 1 + ei % 3)
                     extra_seed = seed + 500009
                     extra_used = fresh(extra_seed)
@@ -534,6 +564,8 @@ def run(tier: str, seed: int) -> int:
     for i in range(n):
         d = [] if i % 3 != 2 else [DIRTY[(i // 3) % len(DIRTY)]]
         cases.append(cw.make_case(seed, i, dirty=d, tier=tier))
+        if i % 3 == 1:
+            cases[-1]["scalars"] = True
 
     def on_result(case, res):
         r.add(case, res)
